@@ -115,7 +115,7 @@ static void one(const vf::Args& a, uint64_t idx, const char* tname) {
         .d("ideal_r_minus_1", ideal_ratio(c.xb, c.xe, c.db, c.de) - 1);
     return j.str();
   };
-  Vec v;
+  static Vec v;  // reused: a fresh 1e5-node vector per case costs more (ASan quarantine) than the call under test
   try {
     tfel::math::geometricDiscretization(v, xb, xe, db, de, typename Vec::size_type(n));
   } catch (std::exception& e) {
@@ -145,7 +145,8 @@ static void one(const vf::Args& a, uint64_t idx, const char* tname) {
   if (bad >= 0) return;
   if (n < 3) { R.skip(nm("ratio"), c.stratum); return; }  // fewer than two ratios: nothing to compare
   // element lengths (exact in long double) and ratios
-  std::vector<L> hh(static_cast<size_t>(n)), q(static_cast<size_t>(n - 1));
+  static std::vector<L> hh, q;
+  hh.assign(static_cast<size_t>(n), 0); q.assign(static_cast<size_t>(n - 1), 0);
   for (long i = 0; i < n; ++i) hh[size_t(i)] = (L(v[size_t(i + 1)]) - L(v[size_t(i)])) * dir;
   for (long i = 0; i + 1 < n; ++i) q[size_t(i)] = hh[size_t(i + 1)] / hh[size_t(i)];
   // the constant: the observed ratio of the interior pair with the largest elements, i.e. the
